@@ -279,6 +279,8 @@ class SciPyOptimizer(Optimizer):
         lin_coef: NDArray[np.float64] | None,
     ) -> NDArray[np.float64]:
         assert self._normalized_constraints is not None
+        # The optimizer may ask for a constraint before the objective:
+        self._reset_cache_if_new(variables)
         if self._normalized_constraints.constraints is None:
             constraints = []
             if self._config.nonlinear_constraints is not None:
@@ -298,6 +300,8 @@ class SciPyOptimizer(Optimizer):
         lin_coef: NDArray[np.float64] | None,
     ) -> NDArray[np.float64]:
         assert self._normalized_constraints is not None
+        # The optimizer may ask for a constraint before the objective:
+        self._reset_cache_if_new(variables)
         if self._normalized_constraints.gradients is None:
             gradients = []
             if self._config.nonlinear_constraints is not None:
@@ -406,16 +410,7 @@ class SciPyOptimizer(Optimizer):
         if self._method in _NO_GRADIENT:
             get_gradient = False
 
-        if (
-            self._cached_variables is None
-            or variables.shape != self._cached_variables.shape
-            or not np.allclose(variables, self._cached_variables)
-        ):
-            self._cached_variables = None
-            self._cached_function = None
-            self._cached_gradient = None
-            if self._normalized_constraints is not None:
-                self._normalized_constraints.reset()
+        self._reset_cache_if_new(variables)
 
         function = self._cached_function if get_function else None
         gradient = self._cached_gradient if get_gradient else None
@@ -444,6 +439,19 @@ class SciPyOptimizer(Optimizer):
                     gradient = new_gradient
 
         return function, gradient
+
+    def _reset_cache_if_new(self, variables: NDArray[np.float64]) -> None:
+        # Drop everything that was cached for a different set of variables:
+        if (
+            self._cached_variables is None
+            or variables.shape != self._cached_variables.shape
+            or not np.allclose(variables, self._cached_variables)
+        ):
+            self._cached_variables = None
+            self._cached_function = None
+            self._cached_gradient = None
+            if self._normalized_constraints is not None:
+                self._normalized_constraints.reset()
 
     def _compute_functions_and_gradients(
         self,
